@@ -28,7 +28,7 @@ import (
 	kit "verifkit"
 )
 
-const c08Rule = "history of Loc-RIB operations (add BGP path from 5 neighbours incl. the session's own peer, add static path, remove, replace with one attribute changed → best-path flips / ECMP changes) over 3-4 related IPv4 prefixes x session kind (eBGP, eBGP RS-client, iBGP, iBGP RR-client, optional RFC 9234 role) x add-path send (best only, N=1..3) x export policy (accept-all or 1-2 filters of 1-3 terms: prefix conditions, set MED/LOCAL_PREF/next hop, prepend, accept/reject), Adj-RIB-Out registered before or in the middle of the history. Non-trivial: the history withdraws a selected path whose exported form differs from its Loc-RIB form (or a static path), or an add changes the selected set of a prefix that already had one."
+const c08Rule = "history of Loc-RIB operations (add BGP path from 5 neighbours incl. the session's own peer, add static path, remove, replace with one attribute changed → best-path flips / ECMP changes) over 3-4 related IPv4 prefixes x session kind (eBGP, eBGP RS-client, iBGP, iBGP RR-client, optional RFC 9234 role) x add-path send (best only, N=1..3) x export policy (accept-all or 1-2 filters of 1-3 terms: prefix conditions, set MED/LOCAL_PREF/next hop, prepend, accept/reject), Adj-RIB-Out registered before or in the middle of the history, export policy replaced 0-2 times during the history. Non-trivial: the history withdraws a selected path whose exported form differs from its Loc-RIB form (or a static path), or an add changes the selected set of a prefix that already had one."
 
 type c08Entry struct {
 	attrs dxAttrs
@@ -287,6 +287,12 @@ func c08Run(t *rapid.T, c *kit.Case, rec *kit.Recorder, maxSteps int) {
 	if rapid.IntRange(0, 3).Draw(t, "late") == 0 {
 		attachAt = rapid.IntRange(1, steps).Draw(t, "attach_at")
 	}
+	// export policy replacements at up to two steps of the history (what a configuration reload does to a
+	// running session): the Adj-RIB-Out must equal the export view under the new policy from then on
+	replaceAt := map[int]dxPolicy{}
+	for k, n := 0, rapid.SampledFrom([]int{0, 0, 1, 2}).Draw(t, "nreplace"); k < n; k++ {
+		replaceAt[rapid.IntRange(1, steps).Draw(t, "replace_at")] = dxGenPolicy(t, fmt.Sprintf("pol_r%d", k), len(pfxs), s)
+	}
 	h := newDxHist(t, len(pfxs), dxGenOpts{Extras: true})
 	c.Logf("session %v", s)
 	c.Logf("policy %v", pol)
@@ -342,6 +348,21 @@ func c08Run(t *rapid.T, c *kit.Case, rec *kit.Recorder, maxSteps int) {
 			}
 			if cm != "" {
 				fail(step, what, cm)
+			}
+		}
+		if np, ok := replaceAt[step]; ok && rig.attached {
+			c.Logf("%d replace export policy by %v", step, np)
+			c.Class("export_policy_replaced")
+			var cm string
+			if m := dxGuard(func() { rig.aro.ReplaceFilterChain(np.chain(pfxs)); rig.pol = np; cm = rig.check() }); m != "" {
+				cm = m
+			}
+			if cm != "" && rig.sig == c08SigWipe && rec.Known(c08SigWipe) {
+				c.Class("known_addpath_wipe")
+				return
+			}
+			if cm != "" {
+				fail(step, "ReplaceFilterChain (export policy)", cm)
 			}
 		}
 		if step == attachAt {
